@@ -280,6 +280,20 @@ class _TypeOf(Abstract):
         return "<class %s>" % self.cls.name
 
 
+class _TypeFn(Abstract):
+    """the builtin `type` as a value (`map(type, xs)`, `key=type`): the class of an instance"""
+
+    def __init__(self) -> None:
+        self.__dict__["__name__"] = "type"
+
+    def __call__(self, v: Any) -> Any:
+        if type(v).__name__ == "AObj" and "_kind_" not in v.__dict__:
+            return _TypeOf(v._cls_)
+        if isinstance(v, Abstract):
+            return Sym(__name__=getattr(v, "_kind_", type(v).__name__))
+        return type(v)
+
+
 def _abs_text(f: "Folder", v: Any, how: str = "__str__") -> Any:
     """str(v) / repr(v) as the evaluated program computes it for an instance of a repository class"""
     if type(v).__name__ == "AObj" and v._record() is None:
@@ -769,6 +783,8 @@ class Folder:
                 f_ = getattr(_op, r.dotted.split(".")[1], None)
                 if callable(f_):
                     return f_  # a function of the operator module as a value (functools.reduce(operator.ior, ...))
+            if r.dotted == "builtins.type":
+                return _TypeFn()
             if r.dotted.startswith("builtins.") and r.dotted.split(".")[1] in _BUILTIN_TYPES:
                 return _BUILTIN_TYPES[r.dotted.split(".")[1]]  # a builtin class as a value (a row of a dispatch table, isinstance(x, table[i]))
             if r.dotted in _PURE_BUILTIN_VALUES:
@@ -925,7 +941,7 @@ class Folder:
                 repo_callee = None
             if not isinstance(repo_callee, (FuncInfo, ClassInfo)):
                 repo_callee = None
-        if e.keywords and repo_callee is None and not isinstance(e.func, (ast.Call, ast.Subscript, ast.IfExp)) and name not in ("int", "dict", "enumerate", "itertools.product", "itertools.groupby", "groupby", "sorted", "max", "min", "functools.partial", "partial", "int.from_bytes") and not (isinstance(e.func, ast.Name) and isinstance(self.env.get(e.func.id), Abstract)) and not (isinstance(e.func, ast.Attribute) and dotted(e.func) and dotted(e.func).split(".")[0] in self.env):
+        if e.keywords and repo_callee is None and not isinstance(e.func, (ast.Call, ast.Subscript, ast.IfExp)) and name not in ("int", "dict", "enumerate", "itertools.product", "itertools.groupby", "groupby", "sorted", "max", "min", "functools.partial", "partial", "int.from_bytes") and not (isinstance(e.func, ast.Name) and isinstance(self.env.get(e.func.id), (Abstract, ClassInfo, _TypeOf))) and not (isinstance(e.func, ast.Attribute) and dotted(e.func) and dotted(e.func).split(".")[0] in self.env):
             raise Unfoldable(unparse(e))
         if isinstance(e.func, ast.Attribute) and e.func.attr == "to_bytes" and 1 <= len(args) <= 2:
             v = self.fold(e.func.value)
@@ -1351,11 +1367,43 @@ class Folder:
 
                 raise Raised(type(ex_s).__name__, e)
             return r_s
+        if name is not None and name.startswith("operator.") and name.count(".") == 1 and "operator" not in self.env:
+            import operator as _op
+
+            f_op = getattr(_op, name.split(".")[1], None)
+            if callable(f_op):
+                vals_o = [self.fold(a) for a in args]
+                if any(isinstance(v_, Abstract) for v_ in vals_o):
+                    raise Unfoldable(unparse(e))
+                try:
+                    return f_op(*vals_o)
+                except (ZeroDivisionError, OverflowError, TypeError, ValueError) as ex_o:
+                    from .absint import Raised
+
+                    raise Raised(type(ex_o).__name__, e)
         if name in ("math.lcm", "math.gcd"):
             vals = [self.fold(a) for a in args]
             return getattr(math, name.split(".")[1])(*vals)
         if name == "divmod":
             return divmod(self.fold(args[0]), self.fold(args[1]))
+        if name == "issubclass" and len(args) == 2 and "issubclass" not in self.env:
+            sub = self.fold(args[0])
+            sups = self.fold(args[1])
+            ans = False
+            for sp in sups if isinstance(sups, tuple) else (sups,):
+                a_ = sub.cls if isinstance(sub, _TypeOf) else sub
+                b_ = sp.cls if isinstance(sp, _TypeOf) else sp
+                if isinstance(a_, ClassInfo) and isinstance(b_, ClassInfo) and self.repo is not None:
+                    ans = ans or b_ in self.repo.mro(a_)
+                elif isinstance(a_, type) and isinstance(b_, type):
+                    ans = ans or issubclass(a_, b_)
+                elif isinstance(a_, ClassInfo) and isinstance(b_, type):
+                    ans = ans or b_ is object
+                elif isinstance(a_, type) and isinstance(b_, ClassInfo):
+                    pass  # a builtin class does not derive from a class of the repository
+                else:
+                    raise Unfoldable("call " + unparse(e))
+            return ans
         if name == "isinstance" and len(args) == 2:
             v = self.fold(args[0])
             class_exprs = list(args[1].elts if isinstance(args[1], ast.Tuple) else [args[1]])
